@@ -19,6 +19,10 @@ import ast
 from .core import FuncTypes, dotted, walk_no_nested
 from .facts import MUTATORS
 
+# functions of nbformat / the standard library that modify their FIRST argument in place (and, for the nbformat ones, return it)
+EXTERNAL_INPLACE = {'rejoin_lines', 'split_lines', 'strip_transient', '_rejoin_mimebundle', '_split_mimebundle', 'upgrade', 'downgrade',
+                    'shuffle', 'heapify', 'heappush', 'heappop', 'insort', 'insort_left', 'insort_right', 'setitem', 'delitem', 'setattr', 'delattr'}
+
 DIFFDATA = '<diff-data>'
 FRESH_DEEP = {'copy.deepcopy', 'deepcopy', 'json.loads', 'json.dumps', 'str', 'repr', 'len', 'int', 'float', 'bool',
               'isinstance', 'type', 'id', 'hash', 'max', 'min', 'sum', 'any', 'all', 'range', 'enumerate_index', 'print',
@@ -402,6 +406,13 @@ class FnAlias:
                     nm = c.func.value.id
                     if not self.roots(env.get(nm, set()), ('ref',)):
                         env[nm] = set(env.get(nm, ())) | self.shallow_of(v)
+        if not fids and last in EXTERNAL_INPLACE and argvals:
+            # third-party normalisers that rewrite their first argument IN PLACE (below its top level) and return it: `a = rejoin_lines(a)` reads as a pure conversion
+            v = argvals[0]
+            if self.roots(v, ('ref',)) or any(k == 1 for r, k in v):
+                self.note_mut(c, v, 'passes %s to %s(), which rewrites its argument in place' % (ast.unparse(c.args[0])[:40], d or last),
+                              base=c.args[0], also_shallow1=True)
+            return set(v)
         if not fids:
             # unknown/external callee: constructors of container-like classes keep references (NotebookNode(x), DiffEntry(**x))
             if last[:1].isupper() and allargs:
